@@ -132,41 +132,52 @@ def render : JsExpr → List Piece
 
 /-! ## the generator writes `render (toAst sc e)` in every state whose scope is `sc` -/
 
-/-- from every state with scope `sc`, `m` succeeds, writes exactly `ps` and leaves the scope alone -/
+/-- the fields the walk of an expression leaves alone (it moves `node` / `lastNode` and records the
+    functions called, nothing else) -/
+def Same (s s' : St) : Prop :=
+  s'.indent = s.indent ∧ s'.ns = s.ns ∧ s'.bufferName = s.bufferName ∧ s'.autoescape = s.autoescape ∧
+  s'.funcsInFile = s.funcsInFile
+
+theorem Same.refl (s : St) : Same s s := ⟨rfl, rfl, rfl, rfl, rfl⟩
+theorem Same.trans {a b c : St} (h1 : Same a b) (h2 : Same b c) : Same a c :=
+  ⟨h2.1.trans h1.1, h2.2.1.trans h1.2.1, h2.2.2.1.trans h1.2.2.1, h2.2.2.2.1.trans h1.2.2.2.1, h2.2.2.2.2.trans h1.2.2.2.2⟩
+
+/-- from every state with scope `sc`, `m` succeeds, writes exactly `ps` and leaves the scope (and
+    indentation, buffer name, autoescape mode) alone -/
 def RunsSc (sc : Scope) (m : M Unit) (ps : List Piece) : Prop :=
-  ∀ s, s.scope = sc → ∃ s', m s = .ok ((), ps, s') ∧ s'.scope = sc
+  ∀ s, s.scope = sc → ∃ s', m s = .ok ((), ps, s') ∧ s'.scope = sc ∧ Same s s'
 
 theorem RunsSc.seq {sc : Scope} {m k : M Unit} {ps qs : List Piece} (hm : RunsSc sc m ps) (hk : RunsSc sc k qs) :
     RunsSc sc (m >>= fun _ => k) (ps ++ qs) := by
   intro s hs
-  obtain ⟨s1, h1, hs1⟩ := hm s hs
-  obtain ⟨s2, h2, hs2⟩ := hk s1 hs1
-  exact ⟨s2, by simp [Bind.bind, M.bind, h1, h2], hs2⟩
+  obtain ⟨s1, h1, hs1, e1⟩ := hm s hs
+  obtain ⟨s2, h2, hs2, e2⟩ := hk s1 hs1
+  exact ⟨s2, by simp [Bind.bind, M.bind, h1, h2], hs2, e1.trans e2⟩
 
-theorem RunsSc.fx {sc : Scope} (t : Bytes) : RunsSc sc (fx t) [.fixed t] := fun s hs => ⟨s, rfl, hs⟩
-theorem RunsSc.emit {sc : Scope} (p : Piece) : RunsSc sc (emit p) [p] := fun s hs => ⟨s, rfl, hs⟩
-theorem RunsSc.emits {sc : Scope} (ps : List Piece) : RunsSc sc (emits ps) ps := fun s hs => ⟨s, rfl, hs⟩
-theorem RunsSc.atOther {sc : Scope} : RunsSc sc atOther [] := fun _ hs => ⟨_, rfl, hs⟩
-theorem RunsSc.pure {sc : Scope} : RunsSc sc (pure ()) [] := fun s hs => ⟨s, rfl, hs⟩
+theorem RunsSc.fx {sc : Scope} (t : Bytes) : RunsSc sc (fx t) [.fixed t] := fun s hs => ⟨s, rfl, hs, Same.refl s⟩
+theorem RunsSc.emit {sc : Scope} (p : Piece) : RunsSc sc (emit p) [p] := fun s hs => ⟨s, rfl, hs, Same.refl s⟩
+theorem RunsSc.emits {sc : Scope} (ps : List Piece) : RunsSc sc (emits ps) ps := fun s hs => ⟨s, rfl, hs, Same.refl s⟩
+theorem RunsSc.atOther {sc : Scope} : RunsSc sc atOther [] := fun _ hs => ⟨_, rfl, hs, rfl, rfl, rfl, rfl, rfl⟩
+theorem RunsSc.pure {sc : Scope} : RunsSc sc (pure ()) [] := fun s hs => ⟨s, rfl, hs, Same.refl s⟩
 theorem RunsSc.cast {sc : Scope} {m : M Unit} {ps qs : List Piece} (h : RunsSc sc m ps) (e : ps = qs) : RunsSc sc m qs := e ▸ h
 
 theorem RunsSc.whenAddCalled {sc : Scope} (c : Bool) (k : Bytes) (v : List Piece) : RunsSc sc (whenM c (addCalled k v)) [] := by
   intro s hs
   cases c
-  · exact ⟨s, rfl, hs⟩
-  · exact ⟨_, rfl, hs⟩
+  · exact ⟨s, rfl, hs, Same.refl s⟩
+  · exact ⟨_, rfl, hs, rfl, rfl, rfl, rfl, rfl⟩
 
 theorem RunsSc.whenFx {sc : Scope} (c : Bool) (t : Bytes) : RunsSc sc (whenM c (JsGen.fx t)) (if c then [.fixed t] else []) := by
   intro s hs
   cases c
-  · exact ⟨s, rfl, hs⟩
-  · exact ⟨s, rfl, hs⟩
+  · exact ⟨s, rfl, hs, Same.refl s⟩
+  · exact ⟨s, rfl, hs, Same.refl s⟩
 
 theorem RunsSc.bindScope {sc : Scope} {k : Scope → M Unit} {ps : List Piece} (h : RunsSc sc (k sc) ps) :
     RunsSc sc (getScope >>= k) ps := by
   intro s hs
-  obtain ⟨s', h', hs'⟩ := h s hs
-  refine ⟨s', ?_, hs'⟩
+  obtain ⟨s', h', hs', e'⟩ := h s hs
+  refine ⟨s', ?_, hs', e'⟩
   simp only [Bind.bind, M.bind, getScope, hs, h', List.nil_append]
 
 section
